@@ -24,7 +24,7 @@ from vlib import blit, zlit
 # constants of the tie (determined empirically, with margin; see design_work.md)
 # (ii) lines <= K * steps + K0, per kind (measured maxima: ext lists 19.5/605, simple
 # extension parsers 7.9/190, defragmenter 41.5 per get_message, static 16.6)
-K_TIE = {'ext_raw': (24, 700), 'ch_exts': (24, 700), 'compressed_cert': (20, 300),
+K_TIE = {'ext_raw': (24, 700), 'ch_exts': (24, 700), 'cert13': (24, 700), 'compressed_cert': (20, 300),   # cert13: per-entry extension lists
          'defrag_hs': (50, 150), 'defrag_static': (22, 300)}
 K_DEFAULT = (12, 300)
 C_LINES, C0_LINES = 40, 800          # (iii) lines <= C * len(input) + C0   (measured max 23.7 / 605)
